@@ -19,7 +19,12 @@
 (*   kind             load | supported | setnnp                            *)
 (*   m                OS thread the calling goroutine currently runs on    *)
 (*   locked           goroutine wired to m (runtime.LockOSThread)          *)
-(*   req              [nnp, flags, pol] of the load                        *)
+(*   req              [nnp, flags, pol, pid] of the load; pid names the    *)
+(*                    policy (0: one that no other load uses): two loads   *)
+(*                    with the same pid > 0 hand the kernel the same       *)
+(*                    program, and still each successful load              *)
+(*                    attaches a filter of its own (LoadFilter does not    *)
+(*                    remember what it installed; the kernel stacks)       *)
 (*   res              none | nil | err | true | false                      *)
 (*   fid              id of the filter this call tries to attach           *)
 (*   kret             what the kernel answered to seccomp(2):              *)
@@ -38,6 +43,8 @@
 (*                   takes no flags and covers the calling thread only     *)
 (*   "SupportedFlags0" (never in the code; self-test only) Supported()     *)
 (*                   probing with flags = 0 would enter strict mode        *)
+(*   "PrctlErrorSwallowed" (never in the code; a seeded change) a failing  *)
+(*                   prctl(PR_SET_NO_NEW_PRIVS) does not stop the load     *)
 (***************************************************************************)
 EXTENDS Integers, Sequences, FiniteSets, TLC, SequencesExt
 CONSTANTS Threads, MaxLoads, Dev,
@@ -48,14 +55,17 @@ CONSTANTS Threads, MaxLoads, Dev,
           Creators,     \* threads that may create threads (the replay harness
                         \* can only stage creation by unmanaged runtime threads)
           Callers,      \* threads library calls are made on
-          AllowBlock    \* TRUE: the environment may put an enclosing filter on a thread that answers
+          AllowBlock,   \* TRUE: the environment may put an enclosing filter on a thread that answers
                         \* seccomp(2) itself with ENOSYS (a container profile); it is filter id 0
+          AllowDeny,    \* TRUE: the environment may put an enclosing filter on a thread that answers
+                        \* prctl(2) with EPERM; filter ids -1, -2, ...
+          PolIds        \* the policies loads choose from (0: a policy of the load's own; k > 0: the shared policy k)
 
 VARIABLES threads, chain, nnp, strict, priv, pc, kind, m, locked, req, res, fid, loads, kret, synced
 vars == <<threads, chain, nnp, strict, priv, pc, kind, m, locked, req, res, fid, loads, kret, synced>>
 kvars == <<threads, chain, nnp, strict, priv>>
 
-NoReq == [nnp |-> FALSE, flags |-> {}, pol |-> "valid"]
+NoReq == [nnp |-> FALSE, flags |-> {}, pol |-> "valid", pid |-> 0]
 NoKret == [errno |-> "", ret |-> 0, att |-> FALSE, nnpAt |-> FALSE, flags |-> {}, t |-> "none"]
 
 Init ==
@@ -84,11 +94,23 @@ ThreadCreate(p, n) ==
 
 \* An enclosing filter (id 0) that answers the seccomp(2) system call with ERRNO(ENOSYS) is installed on thread t
 \* (by whoever started the program, here with prctl(PR_SET_SECCOMP) after setting no_new_privs).
+\* (every installation is a filter object of its own - ids -1, -2, ... - so two threads that were given the "same"
+\* enclosing filter separately have diverged for the purposes of thread-sync; a thread created later inherits the object)
+Denied(t) == \E i \in 1..Len(chain[t]) : chain[t][i] < 0
+DenyIds == UNION {{chain[t][i] : i \in 1..Len(chain[t])} : t \in Threads} \cap (-(Cardinality(Threads) + 1)..-1)
 Blocked(t) == \E i \in 1..Len(chain[t]) : chain[t][i] = 0
 BlockSeccomp(t) ==
-  /\ AllowBlock /\ pc = "idle" /\ t \in threads /\ ~Blocked(t) /\ ~strict[t]
+  /\ AllowBlock /\ pc = "idle" /\ t \in threads /\ ~Blocked(t) /\ ~strict[t] /\ ~Denied(t)   \* (the block is staged with prctl)
   /\ chain' = [chain EXCEPT ![t] = Append(@, 0)]
   /\ nnp' = [nnp EXCEPT ![t] = TRUE]
+  /\ UNCHANGED <<threads, strict, priv, pc, kind, m, locked, req, res, fid, loads, kret, synced>>
+
+\* An enclosing filter (a negative id) that answers prctl(2) with ERRNO(EPERM) is installed on thread t by whoever started the
+\* program: a privileged starter needs no no_new_privs for that, an unprivileged one has to set the bit first.
+DenyPrctl(t) ==
+  /\ AllowDeny /\ pc = "idle" /\ t \in threads /\ ~Denied(t) /\ ~Blocked(t) /\ ~strict[t]
+  /\ chain' = [chain EXCEPT ![t] = Append(@, -(Cardinality(DenyIds) + 1))]
+  /\ nnp' = IF priv THEN nnp ELSE [nnp EXCEPT ![t] = TRUE]
   /\ UNCHANGED <<threads, strict, priv, pc, kind, m, locked, req, res, fid, loads, kret, synced>>
 
 \* The Go scheduler resumes the calling goroutine on another thread.  The
@@ -148,8 +170,12 @@ LF_Assemble ==
 \* prctl(PR_SET_NO_NEW_PRIVS, 1) on the current thread, if requested
 LF_Prctl ==
   /\ pc = "prctl"
-  /\ nnp' = IF kind = "setnnp" \/ req.nnp THEN [nnp EXCEPT ![m] = TRUE] ELSE nnp
-  /\ IF kind = "setnnp" THEN pc' = "ret" /\ res' = "nil" ELSE pc' = "sched" /\ UNCHANGED res
+  /\ LET wanted == kind = "setnnp" \/ req.nnp
+         fails == wanted /\ Denied(m) IN          \* the enclosing filter answers EPERM: the bit stays as it is
+     /\ nnp' = IF wanted /\ ~fails THEN [nnp EXCEPT ![m] = TRUE] ELSE nnp
+     /\ IF kind = "setnnp" THEN pc' = "ret" /\ res' = (IF fails THEN "err" ELSE "nil")
+        ELSE IF fails /\ "PrctlErrorSwallowed" \notin Dev THEN pc' = "ret" /\ res' = "err"     \* the load stops here
+        ELSE pc' = "sched" /\ UNCHANGED res
   /\ UNCHANGED <<threads, chain, strict, priv, kind, m, locked, req, fid, loads, kret, synced>>
 
 \* seccomp(2) on the then-current thread and the mapping of its outcome
@@ -188,13 +214,14 @@ Return ==
   /\ synced' = IF kind = "load" /\ res = "nil" /\ "TSYNC" \in req.flags THEN synced \cup {fid} ELSE synced
   /\ UNCHANGED <<threads, chain, nnp, strict, priv, kind, m, req, res, fid, kret>>
 
-Reqs == [nnp : BOOLEAN, flags : FlagSets, pol : Pols]
+Reqs == [nnp : BOOLEAN, flags : FlagSets, pol : Pols, pid : PolIds]
 LibNext ==
   \/ \E t \in threads, r \in Reqs : Call(t, "load", r)
   \/ \E t \in threads : Call(t, "supported", NoReq) \/ Call(t, "setnnp", NoReq)
   \/ LF_Assemble \/ LF_Prctl \/ LF_Seccomp \/ SupportedStep \/ Return
 EnvNext ==
   \/ \E t \in threads : BlockSeccomp(t)
+  \/ \E t \in threads : DenyPrctl(t)
   \/ \E p \in threads, n \in Threads : ThreadCreate(p, n)
   \/ \E t \in threads : AttemptMigrate(t)
 Next == LibNext \/ EnvNext
@@ -232,7 +259,10 @@ NoTsyncLeavesOthers ==
 
 \* C11
 NNPRequestedLoads ==
-  (AtRet /\ req.nnp /\ req.pol = "valid" /\ "BAD" \notin req.flags /\ kret.ret = 0 /\ ~strict[kret.t] /\ ~Blocked(kret.t)) => res = "nil"
+  (AtRet /\ req.nnp /\ req.pol = "valid" /\ "BAD" \notin req.flags /\ ~Denied(m) /\ kret.t # "none" /\ kret.ret = 0 /\ ~strict[kret.t] /\ ~Blocked(kret.t)) => res = "nil"
+\* a requested bit that cannot be set stops the load before the kernel sees a filter
+PrctlFailureStopsLoad ==
+  (AtRet /\ req.nnp /\ req.pol # "invalid" /\ Denied(m) /\ locked) => (res = "err" /\ kret.t = "none")
 NNPBeforeInstallSameThread ==
   (AtRet /\ req.nnp /\ kret.t # "none") => kret.nnpAt
 NotRequestedUntouched ==
